@@ -90,10 +90,13 @@ PROPS = {
                    "every state satisfying it; try_push accepts exactly the next number and otherwise changes nothing (no replacement of an "
                    "accepted number); pruning drops only already-durable blocks; every queued-not-yet-durable number stays readable; block(n) "
                    "returns block n; queue_block reaches the push only on paths where FinalBlock::verify (payload hash + valid certificate for "
-                   "the block's epoch schedule) or the pre-genesis check + external verification succeeded.",
+                   "the block's epoch schedule) or the pre-genesis check + external verification succeeded; the closure with which the persistence "
+                   "loop of EngineManagerRunner::run picks the block it hands to durable storage (lifted mechanically) returns exactly block "
+                   "max(previously submitted + 1, durable head + 1) -- 'each submitted block directly follows the previously submitted one or "
+                   "the current durable head' -- and returns it as soon as it is readable.",
         level_note="Not decided: interleavings between tasks (each closure run under the watch channel's lock is taken as atomic, A4), the "
-                   "6-line persist loop of EngineManagerRunner::run and the gossip runner's number check (nested scope closures, not "
-                   "extracted), durability of the EngineInterface (A5; incoming persisted states are assumed to pass BlockStoreState::verify). "
+                   "two statements around the persist loop's closure (queue_next = block.number().next(); interface.queue_next_block) which "
+                   "sit in a nested async block of a scope::run! macro, the gossip runner's number check, durability of the EngineInterface (A5; incoming persisted states are assumed to pass BlockStoreState::verify). "
                    "Two statements of queue_block are abstracted by anchor-exact stubs (wait_for predicate; send_if_modified(|bs| bs.try_push(block))). "
                    "A7: stored block numbers < 2^64-1.",
         technique="contract-based deductive verification (Verus on extracted real functions; data-structure invariant + whole-view postconditions)",
@@ -249,10 +252,12 @@ PROPS = {
                    "committee member, passed the signature check and is strictly newer in (version, timestamp) than what it replaced; "
                    "non-members are ignored; an accepted batch has pairwise distinct keys and is applied completely, the flag tells whether "
                    "anything changed; the published book is replaced only by the result of a completely applied accepted batch (a rejected "
-                   "batch is never published). Thorough tier: Kani (loop-free, complete) proves NetAddress::is_newer on the real crate is the "
+                   "batch is never published); ValidatorAddrsWatch::announce publishes the old book with exactly one entry changed: the node's own "
+                   "announcement, validly signed by its key and strictly newer than the entry it replaces. Thorough tier: Kani (loop-free, complete) proves NetAddress::is_newer on the real crate is the "
                    "strict lexicographic order on (version, timestamp) over all 64-bit versions -- hence arrival-order independence.",
         level_note="Trusted: signature check predicate, im::HashMap/HashSet as finite map/set, the Watch mutex serialises writers (A4). "
-                   "is_newer's contract is assumed in the Verus unit and discharged by the Kani harness (thorough tier). announce() is not covered.",
+                   "is_newer's contract is assumed in the Verus unit and discharged by the Kani harness. announce() assumes the node's own version counter is below 2^64-1 (A7-like; it starts at 0 "
+                   "and only this function increments it).",
         technique="contract-based deductive verification (Verus, loop invariant over the batch) + Kani complete harness for the order",
         design_ref="DESIGN.md §5 C18",
         assumptions=[],
@@ -266,11 +271,14 @@ PROPS = {
                    "whose key is K (and, outbound, K is the dialled peer) and whose signature verifies -- and the handshake we send signs this "
                    "stream's id; pool: an identity is admitted iff it has no entry yet and is configured or the quota of non-configured peers "
                    "is not exhausted; the invariant extra_count == |connected \\ configured| <= quota is preserved by insert and remove (no "
-                   "underflow); a refused insert changes nothing.",
+                   "underflow); a refused insert changes nothing. Call sites (gossip::Network::run_inbound_stream / run_outbound_stream, "
+                   "consensus::Network::run_inbound_stream / run_outbound_stream, real text with the RPC service loop as one abstracted "
+                   "statement): a key is registered in a pool only after the handshake ON THE SAME STREAM authenticated it for our genesis "
+                   "(precondition of insert), and remove() is reached only by the task whose insert() succeeded, for the same key (ghost flag).",
         level_note="Trusted: the noise handshake hash identifies the session and cannot be chosen by a peer (snow), signature predicates, "
                    "framing (send_proto/recv_proto stubs), im::HashMap/HashSet as finite map/set. Not decided: interleavings of concurrent "
-                   "inserts (serialised by the Watch mutex, A4), where the runners call insert/remove, and that the validator network passes "
-                   "the committee with quota 0 (PoolWatch::new call sites).",
+                   "inserts (serialised by the Watch mutex, A4), the RPC service loop, preface::connect, DNS resolution, and that the validator "
+                   "network passes the committee with quota 0 (PoolWatch::new call sites).",
         technique="contract-based deductive verification (Verus on extracted real functions and mechanically lifted closures)",
         design_ref="DESIGN.md §5 C12",
         assumptions=[],
